@@ -291,6 +291,7 @@ func runC19(c *eng.Ctx) {
 
 	// ---- R19.5 routes to disabled
 	c.Rule("R19.5", "K6")
+	ruleTelemetrySectionIsTakenKeyByKey(c)
 	// (file) key agreement for telemetry.enabled
 	if fn := c.Fn("server.parseTelemetryConfig"); fn != nil {
 		ok := false
